@@ -270,7 +270,7 @@ pub fn impl_(ctx: &Context, input: &DeriveInput) -> TokenStream {
                     }
                 };
                 let set_tag = quote! {
-                    #tag_ident::#ident.emplace_unchecked(__flatty_bytes)?;
+                    ::flatty::Emplacer::<#tag_ident>::emplace_unchecked(#tag_ident::#ident, __flatty_bytes)?;
                 };
                 let body = collect_fields(&var.fields, get_item);
                 let pat_body = var
